@@ -148,3 +148,5 @@ def check(ctx):
     check_builder(ctx)
     check_bounds(ctx)
     check_levels(ctx)
+    c01.check_level0_closure(ctx)         # level-0 inputs are closed under overlap ...
+    c01.check_pick_level0_closure(ctx)    # ... for every automatically picked compaction
